@@ -753,3 +753,20 @@ package pipeline
 //@ func (*Event).IsRegularKind
 //@   pure
 //@   ensures result == (e.kind == EventKindRegular)
+
+// ---------------------------------------------------------------------------
+// C02: getStream keeps the stream name in the streams map and in the stream
+// itself for as long as the pipeline lives, but the name it is given is an unsafe
+// view into the pooled event's buffer (node.AsString of insane-json).  What is
+// stored must be a copy: not a view of anybody's memory (uf_viewref == 0; see
+// ByteToStringUnsafe in /verif/contracts-lib) - otherwise the key changes under
+// the map when the event is reused and the same stream is created twice.
+
+//@ func (*streamer).getStream
+//@   option allow-exit yes
+//@   callee newStream(name, id, sr) (r)
+//@     requires uf_viewref(name) == 0
+//@     pure
+//@     ensures r != nil && fresh(r)
+//@   callee mapupdate:streams[](k, v)
+//@     requires uf_viewref(k) == 0
